@@ -62,6 +62,10 @@ func (g *cGraph) content(i int) string {
 	case "missingImport":
 		fmt.Fprintf(&b, "import /missing_%d\n", i)
 	}
+	if ext, ok := strings.CutPrefix(g.fault(i), "badModel:"); ok {
+		// imports a compiled model whose content is damaged (the file is there and can be read)
+		fmt.Fprintf(&b, "import /broken_%d.%s\n", i, ext)
+	}
 	b.WriteString("\n")
 	fmt.Fprintf(&b, "F%d:\n    !type T%d:\n        x <: int\n\nOrder:\n    Log:\n        f%d\n", i, i, i)
 	switch g.fault(i) {
@@ -204,6 +208,16 @@ func (r *gateReader) ReadHashBranch(_ context.Context, p string) ([]byte, retrie
 	}
 	<-w.ch
 	idx := r.g.index(p)
+	if base := path.Base(strings.ReplaceAll(p, "\\", "/")); strings.HasPrefix(base, "broken_") {
+		switch {
+		case strings.HasSuffix(base, ".textpb"):
+			return []byte("apps { key: \"Broken\" value { name { part: \"Broken\" } endpoints { key: \"E\" value { name: \"E\" stmt {"), retriever.ZeroHash, "", nil
+		case strings.HasSuffix(base, ".json"):
+			return []byte("{\"apps\": {\"Broken\": {\"name\": {\"part\": [\"Broken\"]"), retriever.ZeroHash, "", nil
+		default:
+			return []byte("\x0a\x12\x0a\x06Broken\x12\xff\xff\xff\xff\x0f\x0a"), retriever.ZeroHash, "", nil
+		}
+	}
 	if idx < 0 || idx >= r.g.N {
 		return nil, retriever.ZeroHash, "", os.ErrNotExist
 	}
@@ -227,6 +241,9 @@ func (g *cGraph) index(p string) int {
 	var k int
 	if _, err := fmt.Sscanf(p, "missing_%d.sysl", &k); err == nil {
 		return g.N + k // the missing file imported by file k
+	}
+	if _, err := fmt.Sscanf(p, "broken_%d.", &k); err == nil {
+		return g.N + k // the damaged compiled model imported by file k
 	}
 	return -1
 }
@@ -341,7 +358,7 @@ func runGated(g *cGraph, picks []int) *cRun {
 					newArr++
 				}
 			}
-			if g.fault(idx) == "missingImport" && !(g.Max > 0 && d+1 >= g.Max) {
+			if (g.fault(idx) == "missingImport" || strings.HasPrefix(g.fault(idx), "badModel:")) && !(g.Max > 0 && d+1 >= g.Max) {
 				newArr++
 			}
 		}
@@ -465,12 +482,16 @@ func sortedCopy(a []int) []int {
 
 func (g *cGraph) oracleReq(order []int) map[string]any {
 	G := make([]any, 0, g.N)
-	var bad, badBody []int
+	var bad, badBody, brokenNodes []int
 	for i := 0; i < g.N; i++ {
 		ims := append([]int{}, g.Imports[i]...)
 		f := g.fault(i)
 		if f == "missingImport" {
 			ims = append(ims, g.N+i) // a file that does not exist; its import line is the last one
+		}
+		if strings.HasPrefix(f, "badModel:") && f != "readErr" {
+			ims = append(ims, g.N+i) // a compiled model that is read but cannot be decoded: fails in the parse phase
+			brokenNodes = append(brokenNodes, g.N+i)
 		}
 		if f == "readErr" {
 			continue // absent from G = unreadable
@@ -482,6 +503,10 @@ func (g *cGraph) oracleReq(order []int) map[string]any {
 			badBody = append(badBody, i)
 		}
 		G = append(G, []any{i, ims})
+	}
+	for _, n := range brokenNodes {
+		G = append(G, []any{n, []int{}})
+		badBody = append(badBody, n)
 	}
 	ord := make([]int, len(order))
 	for i, o := range order {
@@ -757,7 +782,7 @@ func c06IsBodyFault(f string) bool {
 }
 
 func c06AddFaults(r *Rand, g *cGraph) {
-	kinds := []string{"readErr", "syntaxImport", "syntaxBody", "truncated", "missingImport"}
+	kinds := []string{"readErr", "syntaxImport", "syntaxBody", "truncated", "missingImport", "badModel:textpb", "badModel:pb", "badModel:pb.json"}
 	var tk []string
 	for k := range c06TruncTails {
 		tk = append(tk, k)
@@ -1076,7 +1101,7 @@ func c06Direct(res *Result, g *cGraph, run *cRun, in any) {
 			continue
 		}
 		within := g.Max == 0 || d < g.Max
-		if k == "missingImport" {
+		if k == "missingImport" || strings.HasPrefix(k, "badModel:") {
 			within = g.Max == 0 || d+1 < g.Max
 		}
 		if !within {
@@ -1087,6 +1112,11 @@ func c06Direct(res *Result, g *cGraph, run *cRun, in any) {
 		}
 		if k == "missingImport" {
 			failing = append(failing, fmt.Sprintf("missing_%d", f))
+		}
+		if strings.HasPrefix(k, "badModel:") {
+			// the damaged model is what fails, not the file that imports it
+			failing = append(failing, fmt.Sprintf("broken_%d", f))
+			continue
 		}
 		failing = append(failing, strings.TrimSuffix(path.Base(g.Paths[f]), ".sysl"))
 	}
